@@ -13,9 +13,9 @@ import (
 func init() {
 	register(&CheckSpec{
 		ID: "C07", Fn: c07,
-		Rule:        "one evaluation = one mate/stalemate classification observed through the verif hook inside search/qsearch (position FEN handed to refchess: legal-move count and in-check status), over searches of blocked-pawn / zugzwang / few-move / ordinary positions at depth 3-8 under the default configuration and random combinations of the pruning switches (FP, LMP, LMR, null move, razoring, RFP, QFP); plus terminal roots through the public result; distinct = distinct classified positions (FEN identity, kind)",
+		Rule:        "one evaluation = one mate/stalemate classification observed through the verif hook inside search/qsearch (position FEN handed to refchess: legal-move count and in-check status), over searches of blocked-pawn / zugzwang / few-move / ordinary positions at depth 3-8 under the default configuration and random combinations of the pruning switches (FP, LMP, LMR, null move, razoring, RFP, QFP); plus terminal roots through the public result; distinct = distinct classified positions (FEN identity, kind); in 40% of the random-pruning searches the remaining switches are varied too (hash table on/off and its sub-switches, PVS, killers, history, counter moves, MDP, extensions, IID with IIDDepth 2-6 so that it runs at these depths)",
 		Assumptions: []string{"the hook only reads the position; refchess decides legality", "a classification is only made when the search was not stopped (the engine's own guard)"},
-		Required:    []string{"searches", "classifications", "mate_classifications", "stalemate_classifications", "qsearch_mate_classifications", "searches_all_pruning_on", "searches_random_pruning", "terminal_roots", "searches_with_fp_prunings"},
+		Required:    []string{"searches", "classifications", "mate_classifications", "stalemate_classifications", "qsearch_mate_classifications", "searches_all_pruning_on", "searches_random_pruning", "terminal_roots", "searches_with_fp_prunings", "searches_other_switches_varied", "searches_with_iid"},
 		MinEvals:    1000,
 		TimeoutQ:    15 * 60e9,
 	})
@@ -133,6 +133,18 @@ func c07(c *Ctx) {
 				config.Settings.Search.UseTTValue = r.Chance(0.5)
 				curCfg += fmt.Sprintf(" qs=%v ttvalue=%v", config.Settings.Search.UseQuiescence, config.Settings.Search.UseTTValue)
 			}
+			if r.Chance(0.4) {
+				// "every configuration": the remaining switches too, and internal iterative
+				// deepening with parameters that let it run at the depths searched here
+				sc := &config.Settings.Search
+				sc.UseTT, sc.UseTTMove, sc.UseQSTT = r.Chance(0.5), r.Chance(0.7), r.Chance(0.7)
+				sc.UsePVS, sc.UseKiller, sc.UseHistoryCounter, sc.UseCounterMoves = r.Chance(0.7), r.Chance(0.7), r.Chance(0.7), r.Chance(0.7)
+				sc.UseMDP, sc.UseExt, sc.UseCheckExt = r.Chance(0.7), r.Chance(0.7), r.Chance(0.7)
+				sc.UseIID = r.Chance(0.8)
+				sc.IIDDepth, sc.IIDReduction = []int{2, 3, 4, 6}[r.Intn(4)], 1+r.Intn(2)
+				rep.Inc("searches_other_switches_varied")
+				curCfg += fmt.Sprintf(" tt=%v/%v/%v pvs=%v killer=%v hist=%v counter=%v mdp=%v ext=%v/%v iid=%v(%d,%d)", sc.UseTT, sc.UseTTMove, sc.UseQSTT, sc.UsePVS, sc.UseKiller, sc.UseHistoryCounter, sc.UseCounterMoves, sc.UseMDP, sc.UseExt, sc.UseCheckExt, sc.UseIID, sc.IIDDepth, sc.IIDReduction)
+			}
 		}
 		ps.apply()
 		depth := 3 + r.Intn(4)
@@ -149,6 +161,9 @@ func c07(c *Ctx) {
 		rep.Inc("searches")
 		if s.Statistics().FpPrunings > 0 {
 			rep.Inc("searches_with_fp_prunings")
+		}
+		if s.Statistics().IIDsearches > 0 {
+			rep.Inc("searches_with_iid")
 		}
 		if s.Statistics().LmpCuts > 0 {
 			rep.Inc("searches_with_lmp_cuts")
